@@ -1,3 +1,6 @@
 import Rspirv.Props.C01
 import Rspirv.Props.C01Words
-/-! C01: module level (`Props/C01.lean`) and instruction level (`Props/C01Words.lean`) together -/
+import Rspirv.Props.RoundTrip
+import Rspirv.Props.C01End
+/-! C01: module level (`Props/C01.lean`), instruction level (`Props/C01Words.lean`) and reload (`Props/Reload.lean`,
+`Props/RoundTrip.lean`) together -/
